@@ -135,6 +135,7 @@ def gen_cases(rng, n_grid, examples=True, slow=False):
             p['Fixed Charge Rate'] = rng.choice([0.0, 0.05, 0.108, 0.3, 1.0])
             p['Discount Rate'] = rng.choice([0.0, 0.03, 0.07, 0.125, 0.5])
             p['Inflation Rate During Construction'] = rng.choice([0.0, 0.05, 0.15, 0.5])
+            p['Construction Years'] = rng.choice([1, 2, 3, 5])   # the accrued-financing factor is applied once, whatever the construction period
             p['Fraction of Investment in Bonds'] = rng.choice([0.0, 0.3, 0.5, 1.0])
             p['Inflated Bond Interest Rate'] = rng.choice([0.02, 0.05, 0.1])
             p['Inflated Equity Interest Rate'] = rng.choice([0.04, 0.1, 0.2])
@@ -162,6 +163,7 @@ def gen_cases(rng, n_grid, examples=True, slow=False):
                 p['CHP Fraction'] = rng.choice([0.2, 0.5, 0.8])
             if rng.random() < 0.25:
                 # add-ons (electricity / heat gains change the energy series the levelized cost is taken over)
+                p['Construction Years'] = 1   # (the add-on report table crashes for longer construction periods: no result, nothing to check)
                 p['AddOn Nickname 1'] = 'Solar'
                 p['AddOn CAPEX 1'] = rng.choice([5, 10, 60])
                 p['AddOn OPEX 1'] = rng.choice([0, 1.0])
